@@ -85,6 +85,7 @@ type Env struct {
 	closed  bool
 	pollerBusy bool
 	readers []*reader
+	OpaqueCtxErr bool // the scripted client does not wrap context errors (the StoreClient interface does not require it)
 	parked  map[string]chan struct{}
 	active  map[string]bool // API callers with a call in progress
 	oldStores []*setec.Store
@@ -103,6 +104,9 @@ type reader struct {
 // InRead is the watchdog's view (outside the bubble, real time): number of handle calls in progress
 // and a counter that moves whenever one completes.
 var InRead, ReadsDone atomic.Int64
+
+// StepBusy / StepsDone: a driver step in progress and the number completed (a step ends when the bubble is idle).
+var StepBusy, StepsDone atomic.Int64
 
 func (e *Env) StartReaders(ids []string) {
 	for _, id := range ids {
@@ -272,6 +276,9 @@ func (c client) do(ctx context.Context, kind, name string, old int) (*api.Secret
 	select {
 	case <-ctx.Done():
 		e.Log(Event{"ev": "resp", "name": name, "kind": kind, "res": ctxRes(kind), "ver": 0})
+		if e.OpaqueCtxErr {
+			return nil, errService // a client that reports an abandoned request with an error of its own
+		}
 		return nil, ctx.Err()
 	case forceErr := <-p.release:
 		e.mu.Lock()
@@ -512,7 +519,12 @@ func (e *Env) renderDoc(doc []docEntry) []byte {
 // the step is not applicable in the current real state (the script asked for something
 // impossible, e.g. releasing a request that is not pending).
 func (e *Env) Apply(s Step) bool {
-	defer synctest.Wait()
+	StepBusy.Add(1)
+	defer func() {
+		synctest.Wait() // (never returns if some goroutine of the bubble spins or sits on a lock: see the watchdog)
+		StepBusy.Add(-1)
+		StepsDone.Add(1)
+	}()
 	switch s.Do {
 	case "newstore", "restart":
 		restart := s.Do == "restart"
